@@ -1,6 +1,8 @@
 #![allow(dead_code)]
 #![allow(clippy::type_complexity)]
 mod c06;
+mod c15;
+mod c19;
 mod driver;
 mod interp;
 mod net;
@@ -8,5 +10,5 @@ mod prog;
 mod util;
 
 fn main() {
-    vcommon::main(&[&c06::DEF])
+    vcommon::main(&[&c06::DEF, &c15::DEF, &c19::DEF])
 }
